@@ -274,16 +274,19 @@ pub fn announce_url(seed: u64) -> Plan {
     g.announce = format!("http://{}{}{}{}", host, port, path, query);
     // grind the pad until the info-hash contains the byte aimed at
     let target = (seed % 256) as u8;
+    // content and piece hashes do not depend on the pad: hash them once, then only re-hash the
+    // (small) info dictionary per attempt
+    let content_seed = Rng64::sub(seed, "plan-base").next_u64();
+    let concat: Vec<u8> = crate::torrent::build(&g, content_seed).piece_hashes.concat();
     let mut best = String::new();
     for t in 0..40u32 {
         let pad = format!("{}-{}", seed, t);
         g.pad = pad.clone();
-        let tor = crate::torrent::build(&g, 1);
-        if tor.info_hash.contains(&target) {
-            best = pad;
+        let ih = crate::codec::sha1(&crate::torrent::info_dict(&g, concat.clone()).encode());
+        best = pad;
+        if ih.contains(&target) {
             break;
         }
-        best = pad;
     }
     g.pad = best;
     let n = g.pieces();
